@@ -1156,7 +1156,7 @@ class Interp:
         return self.ev(b, env)
 
     def e_CXXConstructExpr(self, n, env):
-        cname = n.get("cname", "")
+        cname = n.get("cname", "").replace("std::__cxx11::list", "std::list")
         args = n.get("ch", [])
         if cname.startswith("std::vector") or cname.startswith("std::list"):
             elem = _first_targ(n.get("t", ""))
